@@ -30,10 +30,38 @@ struct VmContext { _p: u8 }
 #[verifier::external_body]
 struct KString { _p: u8 }
 // KValue: only the variants the extracted bodies name, plus an opaque catch-all
-enum KValue { Null, Str(KString), Other(Opaque) }
+enum KValue { Null, Str(KString), Map(KMap), Other(Opaque) }
 enum ControlFlow { Continue, Return(KValue), Yield(KValue) }
 #[verifier::external_body]
 struct Instruction { _p: u8 }
+
+#[verifier::external_body]
+struct MetaKey { _p: u8 }
+// `&NextBack.into()` (rule R5)
+uninterp spec fn next_back_key() -> MetaKey;
+#[verifier::external_body]
+fn meta_key_next_back() -> (r: MetaKey) ensures r == next_back_key() { unimplemented!() }
+impl KMap {
+    // assumed contract of KMap (map.rs): a meta key that is contained can be read
+    uninterp spec fn has_meta(&self, key: MetaKey) -> bool;
+    #[verifier::external_body]
+    fn contains_meta_key(&self, key: &MetaKey) -> (r: bool) ensures r == self.has_meta(*key) { unimplemented!() }
+    #[verifier::external_body]
+    fn get_meta_value(&self, key: &MetaKey) -> (r: Option<KValue>) ensures (r is Some) == self.has_meta(*key) { unimplemented!() }
+}
+impl KValue {
+    #[verifier::external_body]
+    fn is_callable(&self) -> bool { unimplemented!() }
+}
+
+// call arguments (vm.rs CallArgs): declaration extracted from the real source below
+// `KValue::Tuple(Vec::from(args).into())` (rule R5)
+#[verifier::external_body]
+fn make_tuple_value(args: &[KValue]) -> KValue { unimplemented!() }
+// `instance.unwrap_or_default()` (rule R5): KValue::default() is Null
+#[verifier::external_body]
+fn instance_or_null(instance: Option<KValue>) -> KValue { unimplemented!() }
+struct CallInfo { result_register: Option<u8>, frame_base: u8, instance: Option<u8>, arg_count: u8, packed_arg_count: u8 }
 
 // `unexpected_type(..)` builds an error value (error.rs); assumed total
 #[verifier::external_body]
@@ -381,6 +409,56 @@ VM_SPECS = r"""
         requires old(self).wf(), ensures Self::op_post(old(self), final(self), r is Ok)
     { unimplemented!() }
     #[verifier::external_body]
+    fn run_debug_op(&mut self, a: u8, b: u8) -> (r: Result<()>)
+        requires old(self).wf(), ensures Self::op_post(old(self), final(self), r is Ok)
+    { unimplemented!() }
+    #[verifier::external_body]
+    fn run_display(&mut self, a: u8, b: u8) -> (r: Result<()>)
+        requires old(self).wf(), ensures Self::op_post(old(self), final(self), r is Ok)
+    { unimplemented!() }
+    #[verifier::external_body]
+    fn run_negate(&mut self, a: u8, b: u8) -> (r: Result<()>)
+        requires old(self).wf(), ensures Self::op_post(old(self), final(self), r is Ok)
+    { unimplemented!() }
+    #[verifier::external_body]
+    fn run_make_iterator(&mut self, a: u8, b: u8, t: bool) -> (r: Result<()>)
+        requires old(self).wf(), ensures Self::op_post(old(self), final(self), r is Ok)
+    { unimplemented!() }
+    #[verifier::external_body]
+    fn run_iterator_next(&mut self, a: Option<u8>, b: u8, j: u16, t: bool) -> (r: Result<()>)
+        requires old(self).wf(), ensures Self::op_post(old(self), final(self), r is Ok)
+    { unimplemented!() }
+    #[verifier::external_body]
+    fn run_size(&mut self, a: u8, b: u8, t: bool) -> (r: Result<()>)
+        requires old(self).wf(), ensures Self::op_post(old(self), final(self), r is Ok)
+    { unimplemented!() }
+    #[verifier::external_body]
+    fn call_overridden_op_1(&mut self, a: Option<u8>, b: u8, op: KValue) -> (r: Result<()>)
+        requires old(self).wf(), ensures Self::op_post(old(self), final(self), r is Ok)
+    { unimplemented!() }
+    // the temp-tuple fast path of call_and_run_function (14 lines, a guarded match arm that mutates
+    // self: outside Verus' reach, see run_unary_op_inner) is replaced by this assumed step (rule R5):
+    // it only pushes the tuple's elements onto the value stack
+    #[verifier::external_body]
+    fn prepare_tuple_args<'a>(&mut self, args: CallArgs<'a>, function: &KValue) -> (r: CallArgs<'a>)
+        requires old(self).wf(),
+        ensures final(self).same_but_registers(old(self)), final(self).cur_chunk() == old(self).cur_chunk(),
+                final(self).registers@.len() >= old(self).registers@.len(),
+                final(self).registers@.len() - old(self).registers@.len() <= 0x1000_0000_0000_0000,
+    { unimplemented!() }
+
+    // assumed contract of call_callable (vm.rs, with call_koto_function/call_native_function/
+    // call_generator): the frame is pushed last, after the arguments were validated, so a failed
+    // call pushes no frame; a native call pushes none either
+    #[verifier::external_body]
+    fn call_callable(&mut self, info: CallInfo, callable: KValue) -> (r: Result<()>)
+        requires old(self).wf(),
+        ensures Self::op_post(old(self), final(self), r is Ok),
+                final(self).call_stack@.len() == old(self).call_stack@.len() + 1 ==>
+                    final(self).call_stack@.last().register_base == old(self).register_base + info.frame_base as int,
+    { unimplemented!() }
+
+    #[verifier::external_body]
     fn run_access(&mut self, a: u8, b: u8, key: KString) -> (r: Result<()>)
         requires old(self).wf(), ensures Self::op_post(old(self), final(self), r is Ok)
     { unimplemented!() }
@@ -398,6 +476,7 @@ UNIT = Unit(
     name="V-vmproto",
     prelude=PRELUDE,
     items=[
+        Type("crates/runtime/src/types/meta_map.rs", "enum UnaryOp"),
         Type("crates/runtime/src/types/meta_map.rs", "enum BinaryOp"),
         Type("crates/runtime/src/types/meta_map.rs", "enum ReadOp"),
         Type("crates/runtime/src/types/meta_map.rs", "enum WriteOp"),
@@ -756,6 +835,37 @@ UNIT = Unit(
         !(final(self).execution_state is Suspended) ==> final(self).registers@.len() >= old(self).registers@.len(),   // @registers_not_below_entry
         r is Ok && !(final(self).execution_state is Suspended) ==> final(self).registers@.len() == old(self).registers@.len(),   // @ok_exit_is_clean
 """),
+        Fn(F, "impl KotoVm :: fn run_unary_op", props=("C07",), spec=r"""
+    requires
+        old(self).wf(),
+        old(self).registers@.len() - old(self).register_base + 2 <= 255,
+        old(self).registers@.len() < 0x3000_0000_0000_0000,
+    ensures
+        // C07: on EVERY exit path no frame, register or base is left behind
+        final(self).wf(),                                       // @wf_on_every_exit
+        !(final(self).execution_state is Suspended) ==> final(self).call_stack@.len() == old(self).call_stack@.len(),   // @no_frame_left_behind
+        !(final(self).execution_state is Suspended) ==> forall|i: int| 0 <= i < old(self).call_stack@.len() ==> Self::frame_equiv(#[trigger] final(self).call_stack@[i], old(self).call_stack@[i]),   // @caller_frames_kept
+        !(final(self).execution_state is Suspended) ==> final(self).register_base == old(self).register_base,   // @register_base_restored
+        !(final(self).execution_state is Suspended) ==> final(self).registers@.len() == old(self).registers@.len(),   // @no_register_left_behind
+"""),
+        # ASSUMED (external_body): Verus 0.2026.09.13 loses the state of `self` at the `return` in the arm
+        # that follows a guarded match arm which mutates self (reproduced on a 20-line example,
+        # DESIGN section 9); the body is therefore not verified, only its contract is used by the wrapper
+        Fn(F, "impl KotoVm :: fn run_unary_op_inner", props=("C07",), external_body=True, subst=[("&NextBack.into()", "&meta_key_next_back()", 2)], spec=r"""
+    requires
+        old(self).wf(),
+        old(self).registers@.len() - old(self).register_base + 2 <= 255,    // the operation's registers fit the u8 window
+        old(self).registers@.len() < 0x3000_0000_0000_0000,                  // memory bound (assumption)
+    ensures
+        final(self).wf(),                                       // @wf_on_every_exit
+        !(final(self).execution_state is Suspended) ==> final(self).call_stack@.len() == old(self).call_stack@.len(),   // @no_frame_left_behind
+        !(final(self).execution_state is Suspended) ==> forall|i: int| 0 <= i < old(self).call_stack@.len() ==> Self::frame_equiv(#[trigger] final(self).call_stack@[i], old(self).call_stack@[i]),   // @caller_frames_kept
+        !(final(self).execution_state is Suspended) ==> final(self).register_base == old(self).register_base,   // @register_base_restored
+        // registers pushed for the operation may still be there after an early error exit
+        // (the public wrapper truncates), but nothing below them was removed
+        !(final(self).execution_state is Suspended) ==> final(self).registers@.len() >= old(self).registers@.len(),   // @registers_not_below_entry
+        r is Ok && !(final(self).execution_state is Suspended) ==> final(self).registers@.len() == old(self).registers@.len(),   // @ok_exit_is_clean
+"""),
         Fn(F, "impl KotoVm :: fn run_read_op", props=("C07",), spec=r"""
     requires
         old(self).wf(),
@@ -811,6 +921,42 @@ UNIT = Unit(
         // (the public wrapper truncates), but nothing below them was removed
         !(final(self).execution_state is Suspended) ==> final(self).registers@.len() >= old(self).registers@.len(),   // @registers_not_below_entry
         r is Ok && !(final(self).execution_state is Suspended) ==> final(self).registers@.len() == old(self).registers@.len(),   // @ok_exit_is_clean
+"""),
+
+        Type(F, "enum CallArgs"),
+        Fn(F, "impl KotoVm :: fn call_and_run_function", props=("C07", "C04"),
+           subst=[
+               ("""        let args = match (&args, &function) {
+            (CallArgs::AsTuple(args), KValue::Function(f)) if f.flags.arg_is_unpacked_tuple() => {
+                // If the function is being called with a tuple, and the function has a single
+                // unpacked tuple as its argument, then the call args can be passed into the function
+                // as a temporary tuple. The temp tuple's contents get pushed onto the stack here in
+                // the registers preceding the function's frame.
+                let start = self.registers.len();
+                self.registers.extend(args.iter().cloned());
+                CallArgs::Single(KValue::TemporaryTuple(RegisterSlice {
+                    start,
+                    count: args.len(),
+                }))
+            }
+            _ => args,
+        };
+""", "        let args = self.prepare_tuple_args(args, &function);\n", 1),
+               ("instance.unwrap_or_default()", "instance_or_null(instance)", 1),
+               ("KValue::Tuple(Vec::from(args).into())", "make_tuple_value(args)", 1),
+           ],
+           spec=r"""
+    requires
+        old(self).wf(),
+        old(self).registers@.len() - old(self).register_base <= 250,      // the call's registers fit the u8 window
+        old(self).registers@.len() < 0x2000_0000_0000_0000,               // memory bound (assumption)
+    ensures
+        // C07: on EVERY exit path (value, error from argument binding, error inside the callee)
+        final(self).wf(),                                                                                       // @wf_on_every_exit
+        !(final(self).execution_state is Suspended) ==> final(self).call_stack@.len() == old(self).call_stack@.len(),   // @no_frame_left_behind
+        !(final(self).execution_state is Suspended) ==> forall|i: int| 0 <= i < old(self).call_stack@.len() ==> Self::frame_equiv(#[trigger] final(self).call_stack@[i], old(self).call_stack@[i]),   // @caller_frames_kept
+        !(final(self).execution_state is Suspended) ==> final(self).register_base == old(self).register_base,   // @register_base_restored
+        !(final(self).execution_state is Suspended) ==> final(self).registers@.len() == old(self).registers@.len(),   // @no_register_left_behind
 """),
     ],
     epilogue=r"""
